@@ -1609,3 +1609,72 @@ Proof.
   destruct (unwrap_all j Hff Hio) as [Hwf Hvh].
   apply roundtrip_thm; auto. eapply Nat.le_trans; eauto.
 Qed.
+
+(* ================================================================== remaining property lemmas and non-vacuity *)
+Theorem no_stuck_thm : forall s : bytes, load s <> Err OutOfFuel /\ load s <> Err Crash.
+Proof.
+  intros s. pose proof (load_total_thm s) as H. destruct (load s) as [j|e]; simpl in H.
+  - split; discriminate.
+  - destruct H as [H1 H2]. split; congruence.
+Qed.
+
+Theorem depth_bound_thm : forall (s : bytes) (j : json), load s = Ok j -> jheight j <= max_depth.
+Proof. intros s j H. apply (load_inv s j H). Qed.
+
+Theorem int_text_roundtrip_thm : forall z : Z, in_int64 z = true -> load (print_int z) = Ok (JInt z).
+Proof.
+  intros z Hz. apply (load_dump (JInt z) 1); simpl; auto. unfold max_depth. lia.
+Qed.
+
+Fixpoint nest_vec (n : nat) (v : sval) : sval := match n with O => v | S k => VVec [nest_vec k v] end.
+Fixpoint repeat_byte (n : nat) (c : ascii) : bytes := match n with O => [] | S k => c :: repeat_byte k c end.
+
+Example ex_total_outcomes :
+  from_json (B "[") = FExc ExUnparsed
+  /\ from_json (B "[1 2]") = FExc ExParse
+  /\ from_json (repeat_byte 513 "["%char) = FExc ExDepth
+  /\ from_json (repeat_byte 512 "["%char) = FExc ExUnparsed
+  /\ from_json (B "{""a"":1,") = FValue (VMap [(B "a", VInt 1)])
+  /\ from_json (B "1x") = FValue (VInt 1)
+  /\ from_json [] = FExc ExUnparsed.
+Proof. vm_compute. repeat split. Qed.
+
+Example ex_escape :
+  let s := [ch_quote; ch_bslash; ch_nl; ch_nul; "128"%char; "255"%char; "u"%char; ch_tab; "/"%char] in
+  json_escape s = [ch_bslash; ch_quote; ch_bslash; ch_bslash; ch_bslash; "n"%char; ch_nul; "128"%char; "255"%char;
+                   "u"%char; ch_bslash; "t"%char; "/"%char]
+  /\ unescape (json_escape s) = Ok s
+  /\ unescape (B "A\q\/") = Ok (B "A\/").
+Proof. vm_compute. repeat split. Qed.
+
+Example ex_int :
+  print_int (-9223372036854775808) = B "-9223372036854775808"
+  /\ in_int64 (-9223372036854775808) = true
+  /\ parse_num_int (B "9223372036854775808") = (-9223372036854775808)%Z   (* the wrap the code relies on *)
+  /\ load (B "-9223372036854775808") = Ok (JInt (-9223372036854775808))
+  /\ load (B "9223372036854775807") = Ok (JInt 9223372036854775807)
+  /\ load (B "9223372036854775808") = Ok (JInt (-9223372036854775808))     (* out of range: wraps, not an error *)
+  /\ in_int64 9223372036854775808 = false.
+Proof. vm_compute. repeat split. Qed.
+
+Definition ex_value : sval :=
+  VMap [(B "", VNull);
+        (B "a", VVec [VInt (-9223372036854775808); VBool true; VStr [ch_quote; ch_bslash; ch_nul; "200"%char]; VVec []; VMap []]);
+        (B "b", VMap [([ch_nl], VInt 0)])].
+
+Example ex_roundtrip :
+  wf_sval ex_value = true /\ vheight ex_value <= max_depth /\ vheight ex_value = 3
+  /\ from_json (to_json ex_value) = FValue ex_value
+  (* the hypotheses are needed: std::map order, Depth_Guard *)
+  /\ wf_sval (VMap [(B "b", VNull); (B "a", VNull)]) = false
+  /\ vheight (nest_vec 512 VNull) = 513
+  /\ from_json (to_json (nest_vec 512 VNull)) = FExc ExDepth
+  /\ from_json (to_json (nest_vec 511 VNull)) = FValue (nest_vec 511 VNull).
+Proof. vm_compute. repeat split; intros; discriminate || (repeat constructor). Qed.
+
+Example ex_idempotent :
+  let t := B "{""b"":1, ""a"":[true,""A""] ,""b"":2, null:null}" in
+  let j := JObject [(B "b", JInt 2); (B "a", JArray [JBool true; JString (B "A")]); ([], JNull)] in
+  load t = Ok j /\ float_free j = true
+  /\ from_json_obj j = VMap [([], VNull); (B "a", VVec [VBool true; VStr (B "A")]); (B "b", VInt 2)].
+Proof. vm_compute. repeat split. Qed.
